@@ -943,4 +943,319 @@ theorem J_sus (hG : Good S) (hC : PartCtx S P0 X part) (hI0 : Inv S P0 st0) {i :
 end steps
 
 
+section part
+variable {P0 : Nat → Prop} {X : Rat} {part : List Nat} {st0 : SwState}
+
+/-- every active event of the part is in range and its current y is an end y-coordinate of some segment -/
+theorem snap_y (hG : Good S) (hC : PartCtx S P0 X part) (hI0 : Inv S P0 st0) {a : Nat}
+    (ha : a ∈ st0.openH ∨ a ∈ part) :
+    ∃ ea s, st0.evs[a]? = some ea ∧ s ∈ S ∧ (ea.endpt.p.y = s.on.p.y ∨ ea.endpt.p.y = s.cn.p.y) := by
+  have hlt : a < 2 * S.length := by
+    rcases ha with h | h
+    · obtain ⟨i, s, hs, rfl, _⟩ := (hI0.oh _).1 h
+      obtain ⟨hi, _⟩ := List.getElem?_eq_some_iff.1 hs; omega
+    · exact hC.hlt a h
+  have hj : a / 2 < S.length := by omega
+  have hs : S[a / 2]? = some S[a / 2] := List.getElem?_eq_getElem hj
+  obtain ⟨eo, ec, h0, h1, _, _, _, _, h6, _, _, h9, h10⟩ := hI0.ev (a / 2) _ hs
+  have hm : S[a / 2] ∈ S := List.getElem_mem hj
+  rcases Nat.mod_two_eq_zero_or_one a with hpar | hpar
+  · have ha2 : 2 * (a / 2) = a := by omega
+    rw [ha2] at h0
+    refine ⟨eo, S[a / 2], h0, hm, Or.inl ?_⟩
+    rcases hG.shape _ hm with sh | sv
+    · rw [(h9 sh.1).1, sh.2.1]
+    · have hnp : ¬ P0 (2 * (a / 2)) := by
+        rw [ha2]
+        rcases ha with h | h
+        · obtain ⟨i, s, hs', he, hH, _⟩ := (hI0.oh _).1 h
+          have : i = a / 2 := by omega
+          subst this; rw [hs] at hs'; cases hs'; rw [sv.1] at hH; cases hH
+        · intro hp
+          have h1' := (hC.hpart (a / 2) _ hs).1.1 (by rw [ha2]; exact h)
+          have h2' := (hC.hP0 (a / 2) _ hs).1.1 (by rw [ha2]; exact hp)
+          rw [h1'] at h2'; exact Rat.lt_irrefl h2'
+      rw [(h10 sv.1).2 hnp, sv.2.2.2.1]
+  · have ha2 : 2 * (a / 2) + 1 = a := by omega
+    rw [ha2] at h1
+    exact ⟨ec, S[a / 2], h1, hm, Or.inr (by rw [h6])⟩
+
+theorem part_sweep (hG : Good S) (hC : PartCtx S P0 X part) (hnd : part.Nodup) (hI0 : Inv S P0 st0) :
+    Inv S (fun x => P0 x ∨ x ∈ part) (sweepPart st0 part) ∧
+    (∀ p, p ∈ (sweepPart st0 part).cross.map (·.p) ↔ p ∈ st0.cross.map (·.p) ∨
+      ∃ (i k : Nat) (si sk : Seg), S[i]? = some si ∧ S[k]? = some sk ∧ si.ori = .H ∧ sk.ori = .V ∧ sk.cc = X ∧
+        2 * i ∈ st0.openH ∧ sk.lo < si.cc ∧ si.cc < sk.hi ∧ p = ⟨X, si.cc⟩) := by
+  unfold sweepPart
+  simp only
+  generalize hL : stdSort (cmpEv st0.evs) (st0.openH ++ part) = L
+  have hperm : L.Perm (st0.openH ++ part) := hL ▸ stdSort_perm _ _
+  have hmem : ∀ x, x ∈ L ↔ x ∈ st0.openH ∨ x ∈ part := fun x => by rw [hperm.mem_iff, List.mem_append]
+  have hdisj : ∀ x, x ∈ st0.openH → x ∉ part := by
+    intro x hx hp
+    obtain ⟨i, s, hs, rfl, _, hp0, _⟩ := (hI0.oh _).1 hx
+    have h1 := (hC.hpart i s hs).1.1 hp
+    have h2 := (hC.hP0 i s hs).1.1 hp0
+    rw [h1] at h2; exact Rat.lt_irrefl h2
+  have hLnd : L.Nodup := by
+    rw [hperm.nodup_iff, List.nodup_append]
+    refine ⟨hI0.ohs.imp (fun h => Nat.ne_of_lt h), hnd, ?_⟩
+    intro a ha b hb hab; subst hab; exact hdisj a ha hb
+  have hsorted : L.Pairwise (fun a b => akey st0.evs a ≤ akey st0.evs b) := by
+    rw [← hL]
+    apply stdSort_sorted_key
+    intro a ha b hb
+    obtain ⟨ea, sa, hea, hsa, hya⟩ := snap_y hG hC hI0 (List.mem_append.1 ha)
+    obtain ⟨eb, sb, heb, hsb, hyb⟩ := snap_y hG hC hI0 (List.mem_append.1 hb)
+    refine cmpEv_key _ a b ea eb hea heb ?_
+    rcases hya with h | h <;> rcases hyb with h' | h' <;> rw [h, h'] <;>
+      exact hG.sepY sa hsa sb hsb _ (by simp) _ (by simp)
+  -- the state before the first event
+  have hI1 : Inv S P0 { st0 with openV := none } :=
+    hI0.transfer rfl rfl (fun _ => Iff.rfl) hI0.oh hI0.ohs
+  have hJ0 : J S P0 X part st0.openH (st0.cross.map (·.p)) [] { st0 with openV := none } := by
+    refine ⟨hI1.congr (fun x => by simp), ?_, ?_, ?_⟩
+    · intro k sk _ _ _ h; simp at h
+    · intro j hj; simp at hj
+    · intro p; simp
+  -- induction along the sorted list
+  have key : ∀ (post pre : List Nat) (st : SwState), pre ++ post = L →
+      J S P0 X part st0.openH (st0.cross.map (·.p)) pre st →
+      J S P0 X part st0.openH (st0.cross.map (·.p)) L (post.foldl processEvent st) := by
+    intro post
+    induction post with
+    | nil => intro pre st h hJ; simp at h; subst h; simpa using hJ
+    | cons e post ih =>
+      intro pre st h hJ
+      rw [List.foldl_cons]
+      refine ih (pre ++ [e]) _ (by simp [h]) ?_
+      -- position facts
+      have hnd' := hLnd; rw [← h] at hnd'
+      have hso := hsorted; rw [← h] at hso
+      rw [List.nodup_append] at hnd'
+      rw [List.pairwise_append] at hso
+      have hnc := List.nodup_cons.1 hnd'.2.1
+      have hsc : SC (akey st0.evs) pre post e st0.openH part := by
+        refine ⟨?_, ?_, hnc.1, ?_, ?_, ?_, ?_⟩
+        · intro x; rw [← hmem, ← h]; simp
+        · intro hp; exact hnd'.2.2 e hp e (by simp) rfl
+        · intro x hx hx'; exact hnd'.2.2 x hx x (by simp [hx']) rfl
+        · intro a ha; exact hso.2.2 a ha e (by simp)
+        · intro b hb; exact (List.pairwise_cons.1 hso.2.1).1 b hb
+        · intro a ha b hb; exact hso.2.2 a ha b (by simp [hb])
+      have heL : e ∈ st0.openH ∨ e ∈ part := (hmem e).1 (by rw [← h]; simp)
+      rcases heL with he | he
+      · obtain ⟨i, s, hs, rfl, hH, hp0, _⟩ := (hI0.oh _).1 he
+        exact J_sus hG hC hI0 hsc hs hH he hp0 hJ
+      · have hlt := hC.hlt e he
+        have hj : e / 2 < S.length := by omega
+        have hs : S[e / 2]? = some S[e / 2] := List.getElem?_eq_getElem hj
+        rcases Nat.mod_two_eq_zero_or_one e with hpar | hpar
+        · have he2 : e = 2 * (e / 2) := by omega
+          rw [he2] at hsc he ⊢
+          rcases hG.shape _ (List.getElem_mem hj) with sh | sv
+          · exact J_openH hG hC hI0 hsc hs sh.1 he hJ
+          · exact J_openV hG hC hI0 hsc hs sv.1 he hJ
+        · have he2 : e = 2 * (e / 2) + 1 := by omega
+          rw [he2] at hsc he ⊢
+          rcases hG.shape _ (List.getElem_mem hj) with sh | sv
+          · exact J_closeH hG hC hI0 hsc hs sh.1 he hJ
+          · exact J_closeV hG hC hI0 hsc hs sv.1 he hJ
+  have hJL := key L [] _ (by simp) hJ0
+  refine ⟨hJL.inv.congr ?_, ?_⟩
+  · intro x
+    constructor
+    · rintro (h | ⟨_, h⟩)
+      · exact Or.inl h
+      · exact Or.inr h
+    · rintro (h | h)
+      · exact Or.inl h
+      · exact Or.inr ⟨(hmem x).2 (Or.inr h), h⟩
+  · intro p
+    rw [hJL.cr]
+    constructor
+    · rintro (h | ⟨i, k, si, sk, a, b, c, d, f, _, g, rest⟩)
+      · exact Or.inl h
+      · exact Or.inr ⟨i, k, si, sk, a, b, c, d, f, g, rest⟩
+    · rintro (h | ⟨i, k, si, sk, a, b, c, d, f, g, rest⟩)
+      · exact Or.inl h
+      · exact Or.inr ⟨i, k, si, sk, a, b, c, d, f, (hmem _).2 (Or.inl g), g, rest⟩
+
+end part
+
+/-! ### the whole sweep -/
+
+theorem init_inv (hG : Good S) (nid : Nat) :
+    Inv S (fun _ => False) { segs := S, evs := mkEvents 0 S, nextId := nid } := by
+  refine ⟨mkEvents_length S 0, ?_, ?_, by simp⟩
+  · intro i s hs
+    obtain ⟨g0, g1⟩ := mkEvents_get S 0 i s hs
+    simp only [Nat.zero_add] at g0 g1
+    refine ⟨_, _, g0, g1, ?_, rfl, rfl, rfl, rfl, ?_, ?_, ?_, ?_⟩
+    · simp only [mkEv]
+      rcases hG.shape s (List.mem_of_getElem? hs) with sh | sv
+      · rw [sh.1]; simp [sh.2.1]
+      · rw [sv.1]; simp [sv.2.1]
+    · simp [mkEv, oriAt, hs]
+    · simp [mkEv, oriAt, hs]
+    · intro hH
+      have sh := hG.segH hs hH
+      exact ⟨by simp [mkEv, sh.2.1], by simp, by simp [mkEv]⟩
+    · intro hV
+      have sv := hG.segV hs hV
+      exact ⟨by simp [mkEv], by simp [mkEv, sv.2.2.2.1]⟩
+  · intro e; simp
+
+theorem evX_even {i : Nat} {s : Seg} (hs : S[i]? = some s) : evX (mkEvents 0 S) (2 * i) = s.on.p.x := by
+  have := (mkEvents_get S 0 i s hs).1
+  unfold evX; rw [this]; simp [mkEv]
+
+theorem evX_odd {i : Nat} {s : Seg} (hs : S[i]? = some s) : evX (mkEvents 0 S) (2 * i + 1) = s.cn.p.x := by
+  have := (mkEvents_get S 0 i s hs).2
+  unfold evX; rw [this]; simp [mkEv]
+
+theorem tolX_lt_one : tolX < 1 := by decide +kernel
+theorem tolX_nonneg : 0 ≤ tolX := by decide +kernel
+
+/-- index bookkeeping: every event index below `2n` is `2i` or `2i+1` of a segment -/
+theorem idx_cases {e : Nat} (he : e < 2 * S.length) :
+    ∃ i s, S[i]? = some s ∧ (e = 2 * i ∨ e = 2 * i + 1) := by
+  have hj : e / 2 < S.length := by omega
+  exact ⟨e / 2, S[e / 2], List.getElem?_eq_getElem hj, by omega⟩
+
+theorem evX_apart (hG : Good S) {a b : Nat} (ha : a < 2 * S.length) (hb : b < 2 * S.length) :
+    Apart (evX (mkEvents 0 S) a) (evX (mkEvents 0 S) b) := by
+  obtain ⟨i, s, hs, hi⟩ := idx_cases ha
+  obtain ⟨j, t, ht, hj⟩ := idx_cases hb
+  have hms := List.mem_of_getElem? hs
+  have hmt := List.mem_of_getElem? ht
+  rcases hi with rfl | rfl <;> rcases hj with rfl | rfl <;>
+    simp only [evX_even hs, evX_odd hs, evX_even ht, evX_odd ht] <;>
+    exact hG.sepX s hms t hmt _ (by simp) _ (by simp)
+
+/-- the crossing points reported so far, after the x-parts `done` -/
+def CrossSpec (S : List Seg) (doneFlat : List Nat) (p : Pt) : Prop :=
+  ∃ (i k : Nat) (si sk : Seg), S[i]? = some si ∧ S[k]? = some sk ∧ si.ori = .H ∧ sk.ori = .V ∧
+    2 * k ∈ doneFlat ∧ si.lo < sk.cc ∧ sk.cc ≤ si.hi ∧ sk.lo < si.cc ∧ si.cc < sk.hi ∧ p = ⟨sk.cc, si.cc⟩
+
+theorem sweep_parts (hG : Good S) (ps : List (List Nat))
+    (hflat : ∀ e, e ∈ ps.flatten ↔ e < 2 * S.length) (hflatnd : ps.flatten.Nodup)
+    (hconst : ∀ q ∈ ps, q ≠ [] ∧ ∃ X, ∀ a ∈ q, evX (mkEvents 0 S) a = X)
+    (hinc : ps.Pairwise (fun q r => ∀ a ∈ q, ∀ b ∈ r, evX (mkEvents 0 S) a < evX (mkEvents 0 S) b)) :
+    ∀ (rest done : List (List Nat)) (st : SwState), done ++ rest = ps →
+      Inv S (fun x => x ∈ done.flatten) st → (∀ p, p ∈ st.cross.map (·.p) ↔ CrossSpec S done.flatten p) →
+      Inv S (fun x => x ∈ ps.flatten) (rest.foldl sweepPart st) ∧
+      (∀ p, p ∈ (rest.foldl sweepPart st).cross.map (·.p) ↔ CrossSpec S ps.flatten p) := by
+  intro rest
+  induction rest with
+  | nil => intro done st h hI hc; simp at h; subst h; exact ⟨hI, hc⟩
+  | cons part rest ih =>
+    intro done st h hI hc
+    rw [List.foldl_cons]
+    have hpm : part ∈ ps := by rw [← h]; simp
+    obtain ⟨hne, X, hX⟩ := hconst part hpm
+    obtain ⟨b0, hb0⟩ := List.exists_mem_of_ne_nil part hne
+    have hinc' := hinc; rw [← h, List.pairwise_append] at hinc'
+    have hpr := List.pairwise_cons.1 hinc'.2.1
+    -- where an event lies relative to X
+    have loc : ∀ e, e < 2 * S.length →
+        (e ∈ done.flatten ↔ evX (mkEvents 0 S) e < X) ∧ (e ∈ part ↔ evX (mkEvents 0 S) e = X) := by
+      intro e he
+      have hin : e ∈ done.flatten ∨ e ∈ part ∨ e ∈ rest.flatten := by
+        have := (hflat e).2 he; rw [← h] at this; simpa using this
+      have hd : e ∈ done.flatten → evX (mkEvents 0 S) e < X := by
+        intro hd; obtain ⟨q, hq, heq⟩ := List.mem_flatten.1 hd
+        have := hinc'.2.2 q hq part (by simp) e heq b0 hb0; rw [hX b0 hb0] at this; exact this
+      have hr : e ∈ rest.flatten → X < evX (mkEvents 0 S) e := by
+        intro hd; obtain ⟨q, hq, heq⟩ := List.mem_flatten.1 hd
+        have := hpr.1 q hq b0 hb0 e heq; rw [hX b0 hb0] at this; exact this
+      have hp : e ∈ part → evX (mkEvents 0 S) e = X := hX e
+      constructor
+      · refine ⟨hd, fun hlt => ?_⟩
+        rcases hin with h1 | h1 | h1
+        · exact h1
+        · have := hp h1; grind
+        · have := hr h1; grind
+      · refine ⟨hp, fun heq => ?_⟩
+        rcases hin with h1 | h1 | h1
+        · have := hd h1; grind
+        · exact h1
+        · have := hr h1; grind
+    have hlen : ∀ i s, S[i]? = some s → 2 * i < 2 * S.length ∧ 2 * i + 1 < 2 * S.length := by
+      intro i s hs; obtain ⟨hi, _⟩ := List.getElem?_eq_some_iff.1 hs; omega
+    have hC : PartCtx S (fun x => x ∈ done.flatten) X part := by
+      refine ⟨?_, ?_, ?_⟩
+      · intro i s hs
+        have l0 := (loc _ (hlen i s hs).1).1; have l1 := (loc _ (hlen i s hs).2).1
+        rw [evX_even hs] at l0; rw [evX_odd hs] at l1; exact ⟨l0, l1⟩
+      · intro i s hs
+        have l0 := (loc _ (hlen i s hs).1).2; have l1 := (loc _ (hlen i s hs).2).2
+        rw [evX_even hs] at l0; rw [evX_odd hs] at l1; exact ⟨l0, l1⟩
+      · intro e he; exact (hflat e).1 (by rw [← h]; simp [he])
+    have hnd : part.Nodup := hflatnd.sublist (List.sublist_flatten_of_mem hpm)
+    obtain ⟨hI', hc'⟩ := part_sweep hG hC hnd hI
+    refine ih (done ++ [part]) _ (by simp [h]) (hI'.congr (fun x => by simp)) ?_
+    intro p
+    rw [hc', hc]
+    unfold CrossSpec
+    constructor
+    · rintro (⟨i, k, si, sk, a, b, c, d, f, rest⟩ | ⟨i, k, si, sk, a, b, c, d, f, g, l1, l2, rfl⟩)
+      · exact ⟨i, k, si, sk, a, b, c, d, by simp [f], rest⟩
+      · have sh := hG.segH a c
+        have sv := hG.segV b d
+        obtain ⟨j, t, ht, hj, _, hp1, hp2⟩ := (hI.oh _).1 g
+        have : j = i := by omega
+        subst this; rw [a] at ht; cases ht
+        have q1 := (hC.hP0 j si a).1.1 hp1
+        have q2 := fun hlt => hp2 ((hC.hP0 j si a).2.2 hlt)
+        rw [sh.2.2.2.1] at q1; rw [sh.2.2.2.2.1] at q2
+        refine ⟨j, k, si, sk, a, b, c, d, ?_, by rw [f]; exact q1, by rw [f]; exact Rat.not_lt.1 q2, l1, l2, by rw [f]⟩
+        have := (hC.hpart k sk b).1.2 (by rw [sv.2.1, f])
+        simp [this]
+    · rintro ⟨i, k, si, sk, a, b, c, d, f, g1, g2, l1, l2, rfl⟩
+      have sh := hG.segH a c
+      have sv := hG.segV b d
+      have f' : 2 * k ∈ done.flatten ∨ 2 * k ∈ part := by simpa using f
+      rcases f' with f' | f'
+      · exact Or.inl ⟨i, k, si, sk, a, b, c, d, f', g1, g2, l1, l2, rfl⟩
+      · right
+        have hXk : sk.cc = X := by rw [← sv.2.1]; exact (hC.hpart k sk b).1.1 f'
+        refine ⟨i, k, si, sk, a, b, c, d, hXk, ?_, l1, l2, by rw [hXk]⟩
+        refine (hI.oh _).2 ⟨i, si, a, rfl, c, ?_, ?_⟩
+        · exact (hC.hP0 i si a).1.2 (by rw [sh.2.2.2.1, ← hXk]; exact g1)
+        · intro hh; have := (hC.hP0 i si a).2.1 hh
+          rw [sh.2.2.2.2.1, ← hXk] at this; grind
+
+/-- **The sweep is sound and complete** on separated, overlap-free segment lists: the crossing nodes lie
+exactly at the points (v.cc, h.cc) of a horizontal `h` and a vertical `v` with
+`h.lo < v.cc ≤ h.hi` and `v.lo < h.cc < v.hi`. -/
+theorem computeCrossings_spec (hG : Good S) (nid : Nat) (p : Pt) :
+    p ∈ (computeCrossings S nid).cross.map (·.p) ↔
+    ∃ (i k : Nat) (si sk : Seg), S[i]? = some si ∧ S[k]? = some sk ∧ si.ori = .H ∧ sk.ori = .V ∧
+      si.lo < sk.cc ∧ sk.cc ≤ si.hi ∧ sk.lo < si.cc ∧ si.cc < sk.hi ∧ p = ⟨sk.cc, si.cc⟩ := by
+  unfold computeCrossings xParts
+  simp only
+  have hlen := mkEvents_length S 0
+  obtain ⟨hperm, hconst, hinc⟩ := partition_spec (evX (mkEvents 0 S)) tolX tolX_nonneg tolX_lt_one
+    (List.range (mkEvents 0 S).length)
+    (by intro a ha b hb
+        rw [List.mem_range, hlen] at ha hb
+        exact evX_apart hG ha hb)
+  have hflat : ∀ e, e ∈ (partition (evX (mkEvents 0 S)) tolX (List.range (mkEvents 0 S).length)).flatten ↔
+      e < 2 * S.length := by
+    intro e; rw [hperm.mem_iff, List.mem_range, hlen]
+  have hnd : (partition (evX (mkEvents 0 S)) tolX (List.range (mkEvents 0 S).length)).flatten.Nodup := by
+    rw [hperm.nodup_iff]; exact List.nodup_range
+  obtain ⟨_, hc⟩ := sweep_parts hG _ hflat hnd hconst hinc
+    (partition (evX (mkEvents 0 S)) tolX (List.range (mkEvents 0 S).length)) []
+    { segs := S, evs := mkEvents 0 S, nextId := nid } (by simp)
+    ((init_inv hG nid).congr (fun x => by simp)) (by intro p; simp [CrossSpec])
+  rw [hc p]
+  unfold CrossSpec
+  constructor
+  · rintro ⟨i, k, si, sk, a, b, c, d, _, rest⟩; exact ⟨i, k, si, sk, a, b, c, d, rest⟩
+  · rintro ⟨i, k, si, sk, a, b, c, d, rest⟩
+    refine ⟨i, k, si, sk, a, b, c, d, ?_, rest⟩
+    rw [hflat]; obtain ⟨hk, _⟩ := List.getElem?_eq_some_iff.1 b; omega
+
+
 end AdaptaVerif.Lemmas.Planarise
